@@ -138,6 +138,129 @@ def run_run_job(job, build):
     return out
 
 
+def path_file_name(ex, bs):
+    """std::path::Path::file_name on unix, over symbolic bytes (forks): last normal component, None if
+    the path ends in `..` or has no normal component"""
+    def is_(b, c):
+        return b == c if isinstance(b, int) else ex.branch(b == c, "path")
+    comps = []
+    cur = []
+    for b in bs:
+        if is_(b, 0x2F):
+            comps.append(cur)
+            cur = []
+        else:
+            cur.append(b)
+    comps.append(cur)
+    norm = []
+    for c in comps:
+        if not c:
+            continue
+        if len(c) == 1 and is_(c[0], 0x2E):
+            continue
+        norm.append(c)
+    if not norm:
+        return None
+    last = norm[-1]
+    if len(last) == 2 and is_(last[0], 0x2E) and is_(last[1], 0x2E):
+        return None
+    return last
+
+
+def run_argv0_job(job, build):
+    """Args::current_args from MIR: the application name is the file name of argv[0]"""
+    from mirsym import textmodels as TM
+    from mirsym.models import OK
+    prog = tok.load_program(build, "none")
+    models = dict(TM.TEXT_MODELS)
+    models.update(FM.FMT_MODELS)
+    from mirsym.engine import Exec
+    ex = Exec(prog, models, step_budget=200000)
+    TM.install_hooks(ex)
+    n = job["len"]
+    out = {"stats": None, "cex": [], "inconclusive": [], "samples": [], "nontrivial": 0, "classes": {}, "obligations": 0}
+    L = prog.layout
+
+    def m_args_os(ex_, c, args):
+        return PyIter("vec_into", Seq((BStr(tuple(ex_.argv0)), BStr(tuple(b"x")))), 0)
+
+    def m_file_name(ex_, c, args):
+        v = rda(args[0])
+        r = path_file_name(ex_, list(TM.to_bstr(v).b))
+        return NONE if r is None else SOME(BStr(tuple(r)))
+
+    def m_file_stem(ex_, c, args):
+        v = rda(args[0])
+        r = path_file_name(ex_, list(TM.to_bstr(v).b))
+        if r is None:
+            return NONE
+        # before the last `.`, unless the name starts with its only dot
+        dots = [i for i, b in enumerate(r) if (b == 0x2E if isinstance(b, int) else ex_.branch(b == 0x2E, "stem"))]
+        if not dots or dots[-1] == 0:
+            return SOME(BStr(tuple(r)))
+        return SOME(BStr(tuple(r[:dots[-1]])))
+    ex.models["env::args_os"] = m_args_os
+    ex.models["args_os"] = m_args_os
+    ex.models["Path::file_name"] = m_file_name
+    ex.models["PathBuf::file_name"] = m_file_name
+    ex.models["Path::file_stem"] = m_file_stem
+    ex.models["PathBuf::file_stem"] = m_file_stem
+
+    def harness(ex):
+        bs = [ex.fresh("p", 8) for _ in range(n)]
+        for b in bs:
+            ex.assume(z3.Or(*[b == a for a in (0x2F, 0x2E, 0x61, 0x62)]))
+        ex.argv0 = bs
+        args = ex.call(parse_callee("Args::current_args"), [])
+        fl = L.adts["Args"]["fields"]
+        return (bs, args.fields[fl.index("name")])
+
+    def on_path(ex, r):
+        out["obligations"] += 1
+        if ex.pc:
+            out["nontrivial"] += 1
+        if r.kind != "ok":
+            out["cex"].append({"kind": "current_args-panics", "why": str(r.info), "argv": None, "grammar": None})
+            return
+        bs, name = r.value
+
+        def leaf(e, want):
+            bad = None
+            if (want is None) != (name.var == 0):
+                bad = "name presence"
+            elif want is not None:
+                got = list(TM.to_bstr(rda(name.fields[0])).b)
+                if len(got) != len(want) or any((x is not y) and not (isinstance(x, int) and isinstance(y, int) and x == y) and (e.prove(x == y) is not None) for x, y in zip(got, want)):
+                    bad = "name differs from the file name of argv[0]"
+            if bad:
+                m = e.model()
+                p = bytes(b if isinstance(b, int) else m.eval(b, model_completion=True).as_long() for b in bs)
+                out["cex"].append({"kind": "program-name", "why": "%s: argv[0] = %r" % (bad, p.decode()), "argv": [p.decode()], "grammar": "g1", "argv0": p.decode()})
+        ex.sub_explore(lambda e: path_file_name(e, bs), leaf)
+        if not out["samples"]:
+            m = ex.model()
+            p = bytes(b if isinstance(b, int) else m.eval(b, model_completion=True).as_long() for b in bs)
+            out["samples"].append({"argv0": p.decode(), "name": "Some" if name.var == 1 else "None"})
+    try:
+        ex.explore(harness, on_path)
+    except (Unmodelled, BoundExceeded, ExecError) as e:
+        out["inconclusive"].append("%s %s [%s]" % (type(e).__name__, e, "/".join(ex.callstack[-3:])))
+    out["stats"] = dict(ex.stats)
+    out["models_used"] = dict(ex.model_hits)
+    out["fn_hits"] = dict(ex.fn_hits)
+    # confirm through a real process: the usage line of --help starts with the program name
+    import subprocess, os, tempfile, shutil
+    for c in [c for c in out["cex"] if c["kind"] == "program-name"]:
+        a0 = c["argv0"]
+        base = a0.rstrip("/").split("/")[-1]
+        p = subprocess.run(["bash", "-c", 'exec -a "$0" "$1" --help', a0, build["sets"]["none"]["replay"]],
+                           env=dict(os.environ, VHARNESS_RUN="g1"), stdout=subprocess.PIPE, stderr=subprocess.PIPE, timeout=60)
+        first = p.stdout.decode("utf-8", "replace").split("\n")[0]
+        c["native"] = first
+        c["reproduced"] = ("Usage: " + base + " ") not in first + " "
+    return out
+
+
 def run_exit_code_job(job, build):
     prog = tok.load_program(build, "none")
     ex = tok.new_exec(prog)
@@ -173,6 +296,8 @@ def run_exit_code_job(job, build):
 
 def make_jobs(tier, seed, build):
     jobs = [{"id": "exit_code", "kind": "exit_code"}]
+    for n in range(0, (4 if tier == "quick" else 5) + 1):
+        jobs.append({"id": "argv0:%d" % n, "kind": "argv0", "len": n})
     nmax = 3 if tier == "quick" else 4
     for gname in GRAMMARS:
         g = CORPUS[gname]
@@ -184,6 +309,8 @@ def make_jobs(tier, seed, build):
 def run_job(job, build):
     if job["kind"] == "exit_code":
         return run_exit_code_job(job, build)
+    if job["kind"] == "argv0":
+        return run_argv0_job(job, build)
     return run_run_job(job, build)
 
 
@@ -200,6 +327,9 @@ def finish(results, jobs, build, out, tier, seed, wall):
             if len(samples) < 10:
                 samples.append(s)
         for c in r.get("cex", []):
+            if c["kind"] == "program-name" and not c.get("reproduced"):
+                out.inconc("NONREPRO %s (real process prints %r)" % (c["why"], c.get("native")))
+                continue
             out.violation("%s:%s:%s" % (c["kind"], c.get("grammar"), " ".join(c.get("argv") or [])),
                           "%s on grammar %s argv=%r: %s" % (c["kind"], c.get("grammar"), c.get("argv"), c["why"]), c)
     nmax = 3 if tier == "quick" else 4
